@@ -131,6 +131,11 @@ def fit(rep, model):
     # simulate an earlier history: previous results and fitted state present
     E.attrs(ctx, o).update(df_features=('atom', 'OLD_df_features', 'table'), sig=('atom', 'OLD_sig', 'arr'), fs=('atom', 'OLD_fs', 'num'),
                            f_range=('atom', 'OLD_f_range', 'any'))
+    # ... and every other attribute that is not a setting (bookkeeping a method may keep between calls) holds an unknown earlier value
+    for k in list(E.attrs(ctx, o)):
+        if k not in SETTINGS and k not in ('df_features', 'sig', 'fs', 'f_range'):
+            E.attrs(ctx, o)[k] = ('atom', 'OLD_' + k, 'any')
+    a_prev = dict(E.attrs(ctx, o))
     ctx.trace.clear()
     ctx.raises.clear()
     E.run(model, f.qual, {'self': o}, ctx=ctx)
@@ -165,7 +170,7 @@ def fit(rep, model):
         rep.ok('ARG-NAME', 'fit:result stored', site, found='self.df_features = compute_features(...)')
     else:
         rep.violation('ARG-NAME', 'fit:result stored', site, expected='self.df_features is the value returned by compute_features', found=after.get('df_features'))
-    changed = {k for k in set(after) | set(a0) if after.get(k) != a0.get(k) and not (k in ('df_features', 'sig', 'fs', 'f_range'))}
+    changed = {k for k in set(after) | set(a_prev) if after.get(k) != a_prev.get(k) and not (k in ('df_features', 'sig', 'fs', 'f_range'))}
     if changed:
         rep.violation('NO-STALE', 'fit:settings untouched', site, expected='fit assigns only sig, fs, f_range, df_features', found=sorted(changed))
     else:
@@ -205,6 +210,28 @@ def fit(rep, model):
         rep.ok('ARG-NAME', 'plot:fitted-state guard', psite, found='ValueError before plotting on an unfitted object')
     else:
         rep.violation('ARG-NAME', 'plot:fitted-state guard', psite, expected='unconditional ValueError, no drawing', found=[(r[0], T.brief(r[1], 60)) for r in ctx2.raises])
+
+
+def front_end(rep, model, rule='FRONT-END'):
+    """shared clause for the pipeline properties: whatever state an object is in, Bycycle.fit is compute_features with the stored settings, so what the
+    property says about the returned table holds for Bycycle.df_features too"""
+    rep.rule(rule, 'Bycycle.fit, entered in an arbitrary earlier state (every non-setting attribute unknown), calls compute_features exactly once, unconditionally after the '
+                   '1-D guard, with the stored settings bound by name, and stores what it returns: no shortcut, cache or earlier table can stand in for the analysis '
+                   '(shared with C14 ARG-NAME / NO-STALE)')
+    before = len(rep.instances)
+    rules_before = dict(rep.rules)
+    fit(rep, model)
+    kept = []
+    for i in rep.instances[before:]:
+        if i['instance'].startswith('fit:') and i['rule'] in ('ARG-NAME', 'NO-STALE') and i['instance'] != 'fit:settings untouched':
+            i = dict(i, rule=rule)
+            if i.get('key'):
+                i['key'] = rule + '@' + i['instance']
+            kept.append(i)
+    rep.instances[before:] = kept
+    for k in list(rep.rules):
+        if k not in rules_before and k != rule:
+            del rep.rules[k]
 
 
 def reduce_and_recompute(rep, model):
